@@ -601,11 +601,13 @@ theorem snd_watchTimerAfterMsec (st : St) (msec : Int) (flags : Nat) (slot : Int
   simp only []
   rw [snd_watchTimerAt]; rfl
 
+theorem q0_with_cancelReq (st : St) (l : List Int) : Q0 st { st with cancelReq := l } := Q0.of_eq rfl rfl rfl rfl
+
 theorem q0_doCancel (st : St) (k : Int) : Q0 st (doCancel st k) := by
   unfold doCancel
   split
   · exact q0_emit _ _
-  · exact q0_watchCancel _ _
+  · exact (q0_with_cancelReq _ _).trans (q0_watchCancel _ _)
 
 theorem q_runAct (st : St) (act : Act) : Q st (runAct st act) := by
   unfold runAct
@@ -663,6 +665,650 @@ theorem q_runActs (acts : List Act) : ∀ st : St,
     split
     · exact (Q.of_q0 (q0_emit st _)).trans (q_runAct _ _)
     · exact Q.refl _
+
+/-! ### `R2`: what a step does to the two queues, to liveness and to the cancel requests
+
+    `E`: watches that are, for the moment, allowed to be allocated without being queued (a watch between its
+    allocation and its insertion, or between its removal from the queue and `free`). -/
+
+structure R2 (E : List Nat) (st st' : St) : Prop where
+  h : MH st st'
+  alive : st'.alive = st.alive
+  creq : ∀ k ∈ st.cancelReq, k ∈ st'.cancelReq
+  stayT : st'.isOk = true → ∀ x ∈ st.timers, x < st.heap.length → x ∈ st'.timers ∨ st'.live x = false ∨ x ∈ E
+  stayL : st'.isOk = true → ∀ x ∈ st.laters, x < st.heap.length → x ∈ st'.laters ∨ st'.live x = false ∨ x ∈ E
+  newl : st'.isOk = true → ∀ x, st.heap.length ≤ x → x < st'.heap.length → st'.live x = true →
+    ((st'.getW x).type = .timer → x ∈ st'.timers ∨ x ∈ E) ∧ ((st'.getW x).type = .later → x ∈ st'.laters ∨ x ∈ E)
+  gone : ∀ x, x < st'.heap.length → (x < st.heap.length → st.live x = true) → st'.live x = false →
+    isOneShot (st'.getW x).type = false ∨ (st'.getW x).slot ∈ st'.cancelReq
+
+theorem R2.refl (E : List Nat) (st : St) : R2 E st st :=
+  ⟨MH.refl st, rfl, fun _ h => h, fun _ x hx _ => Or.inl hx, fun _ x hx _ => Or.inl hx, fun _ x h1 h2 => by omega,
+   fun x hx hl hd => by rw [hl hx] at hd; cases hd⟩
+
+theorem R2.trans {E : List Nat} {a b c : St} (h1 : R2 E a b) (h2 : R2 E b c) : R2 E a c := by
+  refine ⟨h1.h.trans h2.h, by rw [h2.alive, h1.alive], fun k hk => h2.creq k (h1.creq k hk), ?_, ?_, ?_, ?_⟩
+  · intro hok x hx hlt
+    have hltb := Nat.lt_of_lt_of_le hlt h1.h.len
+    rcases h1.stayT (h2.h.ok hok) x hx hlt with h | h | h
+    · exact h2.stayT hok x h hltb
+    · right; left
+      cases hc : c.live x with
+      | false => rfl
+      | true => rw [h2.h.live x hltb hc] at h; cases h
+    · exact Or.inr (Or.inr h)
+  · intro hok x hx hlt
+    have hltb := Nat.lt_of_lt_of_le hlt h1.h.len
+    rcases h1.stayL (h2.h.ok hok) x hx hlt with h | h | h
+    · exact h2.stayL hok x h hltb
+    · right; left
+      cases hc : c.live x with
+      | false => rfl
+      | true => rw [h2.h.live x hltb hc] at h; cases h
+    · exact Or.inr (Or.inr h)
+  · intro hok x hx1 hx2 hl
+    by_cases hb : x < b.heap.length
+    · have hlb := h2.h.live x hb hl
+      obtain ⟨n1, n2⟩ := h1.newl (h2.h.ok hok) x hx1 hb hlb
+      constructor
+      · intro ht
+        have htb : (b.getW x).type = .timer := by
+          rw [← h2.h.oneShot hb (by rw [ht]; rfl)]; exact ht
+        rcases n1 htb with h | h
+        · rcases h2.stayT hok x h hb with h' | h' | h'
+          · exact Or.inl h'
+          · rw [hl] at h'; cases h'
+          · exact Or.inr h'
+        · exact Or.inr h
+      · intro ht
+        have htb : (b.getW x).type = .later := by
+          rw [← h2.h.oneShot hb (by rw [ht]; rfl)]; exact ht
+        rcases n2 htb with h | h
+        · rcases h2.stayL hok x h hb with h' | h' | h'
+          · exact Or.inl h'
+          · rw [hl] at h'; cases h'
+          · exact Or.inr h'
+        · exact Or.inr h
+    · exact h2.newl hok x (by omega) hx2 hl
+  · intro x hx hl hd
+    by_cases hb : x < b.heap.length
+    · cases hlb : b.live x with
+      | false =>
+        rcases h1.gone x hb hl hlb with h | h
+        · exact Or.inl (h2.h.notOneShot hb h)
+        · right; rw [h2.h.slot x hb]; exact h2.creq _ h
+      | true => exact h2.gone x hx (fun _ => hlb) hd
+    · exact h2.gone x hx (fun h => absurd h hb) hd
+
+theorem R2.mono {E E' : List Nat} {st st' : St} (h : R2 E st st') (hs : ∀ x ∈ E, x ∈ E') : R2 E' st st' :=
+  ⟨h.h, h.alive, h.creq,
+   fun hok x hx hl => (h.stayT hok x hx hl).imp id (Or.imp id (hs x)),
+   fun hok x hx hl => (h.stayL hok x hx hl).imp id (Or.imp id (hs x)),
+   fun hok x h1 h2 h3 => ⟨fun ht => ((h.newl hok x h1 h2 h3).1 ht).imp id (hs x), fun ht => ((h.newl hok x h1 h2 h3).2 ht).imp id (hs x)⟩,
+   h.gone⟩
+
+/-- The excepted watches are, at the end, freed or queued where they belong (or the history is not ok):
+    nothing is excepted. -/
+theorem R2.drop {E : List Nat} {st st' : St} (h : R2 E st st')
+    (hE : st'.isOk = true → ∀ x ∈ E, st'.live x = false ∨
+      (((st'.getW x).type = .timer → x ∈ st'.timers) ∧ ((st'.getW x).type = .later → x ∈ st'.laters) ∧
+       (x ∈ st.timers → x ∈ st'.timers) ∧ (x ∈ st.laters → x ∈ st'.laters))) : R2 [] st st' := by
+  refine ⟨h.h, h.alive, h.creq, ?_, ?_, ?_, h.gone⟩
+  · intro hok x hx hl
+    rcases h.stayT hok x hx hl with h' | h' | h'
+    · exact Or.inl h'
+    · exact Or.inr (Or.inl h')
+    · rcases hE hok x h' with e | e
+      · exact Or.inr (Or.inl e)
+      · exact Or.inl (e.2.2.1 hx)
+  · intro hok x hx hl
+    rcases h.stayL hok x hx hl with h' | h' | h'
+    · exact Or.inl h'
+    · exact Or.inr (Or.inl h')
+    · rcases hE hok x h' with e | e
+      · exact Or.inr (Or.inl e)
+      · exact Or.inl (e.2.2.2 hx)
+  · intro hok x h1 h2 h3
+    obtain ⟨n1, n2⟩ := h.newl hok x h1 h2 h3
+    constructor
+    · intro ht
+      rcases n1 ht with h' | h'
+      · exact Or.inl h'
+      · rcases hE hok x h' with e | e
+        · rw [h3] at e; cases e
+        · exact Or.inl (e.1 ht)
+    · intro ht
+      rcases n2 ht with h' | h'
+      · exact Or.inl h'
+      · rcases hE hok x h' with e | e
+        · rw [h3] at e; cases e
+        · exact Or.inl (e.2.1 ht)
+
+theorem R2.of_eq {E : List Nat} {st st' : St} (hh : st'.heap = st.heap) (hst : st'.status = st.status) (ha : st'.alive = st.alive)
+    (hc : st'.cancelReq = st.cancelReq) (ht : st'.timers = st.timers) (hl : st'.laters = st.laters) : R2 E st st' :=
+  ⟨MH.of_heap_eq hh hst, ha, fun k hk => by rw [hc]; exact hk, fun _ x hx _ => Or.inl (by rw [ht]; exact hx),
+   fun _ x hx _ => Or.inl (by rw [hl]; exact hx), fun _ x h1 h2 => by rw [hh] at h2; omega,
+   fun x hx hlv hd => (by
+     rw [hh] at hx
+     rw [live_of_heap_eq hh, hlv hx] at hd; cases hd)⟩
+
+/-- Heap changed without allocating and without changing who is live; queues untouched. -/
+theorem R2.of_mh {E : List Nat} {st st' : St} (h : MH st st') (hlen : st'.heap.length = st.heap.length)
+    (hlive : ∀ x, x < st.heap.length → st.live x = true → st'.live x = true) (ha : st'.alive = st.alive)
+    (hc : st'.cancelReq = st.cancelReq) (ht : st'.timers = st.timers) (hl : st'.laters = st.laters) : R2 E st st' :=
+  ⟨h, ha, fun k hk => by rw [hc]; exact hk, fun _ x hx _ => Or.inl (by rw [ht]; exact hx),
+   fun _ x hx _ => Or.inl (by rw [hl]; exact hx), fun _ x h1 h2 => by omega,
+   fun x hx hlv hd => (by
+     rw [hlen] at hx
+     rw [hlive x hx (hlv hx)] at hd; cases hd)⟩
+
+/-- A step that ends outside defined behaviour and touches neither heap nor the rest. -/
+theorem R2.of_bad {E : List Nat} {st st' : St} (hh : st'.heap = st.heap) (hbad : st'.isOk = false) (ha : st'.alive = st.alive)
+    (hc : st'.cancelReq = st.cancelReq) : R2 E st st' :=
+  ⟨MH.of_heap_eq_bad hh hbad, ha, fun k hk => (by rw [hc]; exact hk), fun hok => (by rw [hbad] at hok; cases hok),
+   fun hok => (by rw [hbad] at hok; cases hok), fun hok => (by rw [hbad] at hok; cases hok),
+   fun x hx hlv hd => (by
+     rw [hh] at hx
+     rw [live_of_heap_eq hh, hlv hx] at hd; cases hd)⟩
+
+/-! primitives -/
+
+theorem r2_emit (E : List Nat) (st : St) (e : Ev) : R2 E st (st.emit e) := R2.of_eq rfl rfl rfl rfl rfl rfl
+theorem r2_fail (E : List Nat) (st : St) (w : Ub) : R2 E st (st.fail w) :=
+  R2.of_bad (St.heap_fail st w) (St.isOk_fail st w) (by unfold St.fail; split <;> rfl) (by unfold St.fail; split <;> rfl)
+
+theorem live_setW_same (st : St) (a : Nat) (w : Watch) (hf : w.freed = (st.getW a).freed) (x : Nat) (hx : x < st.heap.length) :
+    (st.setW a w).live x = st.live x := by
+  by_cases hax : a = x
+  · subst hax
+    have hx' : a < (st.setW a w).heap.length := by rw [St.length_setW]; exact hx
+    rw [live_eq_not_freed _ _ hx', live_eq_not_freed _ _ hx, St.getW_setW_self st a w hx, hf]
+  · exact St.live_setW_ne _ _ _ _ hax
+
+theorem r2_setEvi (E : List Nat) (st : St) (a idx : Nat) : R2 E st (st.setW a { st.getW a with evi := idx }) :=
+  R2.of_mh (mh_setW st a _ rfl rfl (Or.inl rfl) (fun h => h)) (St.length_setW _ _ _)
+    (fun x hx hl => by rw [live_setW_same st a { st.getW a with evi := idx } rfl x hx]; exact hl) rfl rfl rfl rfl
+theorem r2_setWstatus (E : List Nat) (st : St) (a : Nat) (ws : Int) : R2 E st (st.setW a { st.getW a with wstatus := ws }) :=
+  R2.of_mh (mh_setW st a _ rfl rfl (Or.inl rfl) (fun h => h)) (St.length_setW _ _ _)
+    (fun x hx hl => by rw [live_setW_same st a { st.getW a with wstatus := ws } rfl x hx]; exact hl) rfl rfl rfl rfl
+
+/-- `free(a)` of a watch that is not a timer / deferred callback, or whose cancellation was asked for. -/
+theorem r2_free (E : List Nat) (st : St) (a : Nat)
+    (ha : isOneShot (st.getW a).type = false ∨ (st.getW a).slot ∈ st.cancelReq) : R2 E st (st.free a) := by
+  have hm := mh_free st a
+  have hlen : (st.free a).heap.length = st.heap.length := by
+    unfold St.free; split
+    · exact St.length_setW _ _ _
+    · rw [St.heap_fail]
+  have hal : (st.free a).alive = st.alive := by unfold St.free; split <;> first | rfl | (unfold St.fail; split <;> rfl)
+  have hcr : (st.free a).cancelReq = st.cancelReq := by unfold St.free; split <;> first | rfl | (unfold St.fail; split <;> rfl)
+  have hti : (st.free a).timers = st.timers := lists_free st a .timer
+  have hla : (st.free a).laters = st.laters := lists_free st a .later
+  refine ⟨hm, hal, fun k hk => by rw [hcr]; exact hk, fun _ x hx _ => Or.inl (by rw [hti]; exact hx),
+    fun _ x hx _ => Or.inl (by rw [hla]; exact hx), fun _ x h1 h2 => by omega, ?_⟩
+  intro x hx hlv hd
+  rw [hlen] at hx
+  by_cases hax : a = x
+  · subst hax
+    rcases ha with h | h
+    · exact Or.inl (hm.notOneShot hx h)
+    · right; rw [hm.slot a hx, hcr]; exact h
+  · rw [St.live_free_ne _ _ _ hax, hlv hx] at hd; cases hd
+
+theorem r2_with_iow (E : List Nat) (st : St) (l : List Nat) : R2 E st { st with iow := l } := R2.of_eq rfl rfl rfl rfl rfl rfl
+theorem r2_with_signals (E : List Nat) (st : St) (l : List Nat) : R2 E st { st with signals := l } := R2.of_eq rfl rfl rfl rfl rfl rfl
+theorem r2_with_procs (E : List Nat) (st : St) (l : List Nat) : R2 E st { st with procs := l } := R2.of_eq rfl rfl rfl rfl rfl rfl
+theorem r2_with_errno (E : List Nat) (st : St) (v : Int) : R2 E st { st with errno := v } := R2.of_eq rfl rfl rfl rfl rfl rfl
+theorem r2_with_children (E : List Nat) (st : St) (l : List Proc) : R2 E st { st with children := l } := R2.of_eq rfl rfl rfl rfl rfl rfl
+theorem r2_with_stillRunning (E : List Nat) (st : St) (b : Bool) : R2 E st { st with stillRunning := b } := R2.of_eq rfl rfl rfl rfl rfl rfl
+theorem r2_with_pendingSig (E : List Nat) (st : St) (l : List Int) : R2 E st { st with pendingSig := l } := R2.of_eq rfl rfl rfl rfl rfl rfl
+theorem r2_with_inpoll (E : List Nat) (st : St) (l : List Int) : R2 E st { st with inpoll := l } := R2.of_eq rfl rfl rfl rfl rfl rfl
+theorem r2_with_inRun (E : List Nat) (st : St) (b : Bool) : R2 E st { st with inRun := b } := R2.of_eq rfl rfl rfl rfl rfl rfl
+theorem r2_with_bad_status (E : List Nat) (st : St) (x : Status) (hx : x ≠ .ok) : R2 E st { st with status := x } :=
+  R2.of_bad rfl (by show (x == Status.ok) = false; cases x <;> first | exact absurd rfl hx | rfl) rfl rfl
+
+/-- Replacing a queue by one that keeps every member (or only drops excepted ones). -/
+theorem r2_with_timers (E : List Nat) (st : St) (l : List Nat) (hs : ∀ x ∈ st.timers, x ∈ l ∨ x ∈ E) : R2 E st { st with timers := l } :=
+  ⟨MH.of_heap_eq rfl rfl, rfl, fun _ h => h, fun _ x hx _ => (hs x hx).imp id Or.inr, fun _ x hx _ => Or.inl hx,
+   fun _ x h1 h2 => by have : ({ st with timers := l } : St).heap.length = st.heap.length := rfl; omega,
+   fun x hx hlv hd => (by
+     have e : ({ st with timers := l } : St).live x = st.live x := rfl
+     rw [e, hlv hx] at hd; cases hd)⟩
+theorem r2_with_laters (E : List Nat) (st : St) (l : List Nat) (hs : ∀ x ∈ st.laters, x ∈ l ∨ x ∈ E) : R2 E st { st with laters := l } :=
+  ⟨MH.of_heap_eq rfl rfl, rfl, fun _ h => h, fun _ x hx _ => Or.inl hx, fun _ x hx _ => (hs x hx).imp id Or.inr,
+   fun _ x h1 h2 => by have : ({ st with laters := l } : St).heap.length = st.heap.length := rfl; omega,
+   fun x hx hlv hd => (by
+     have e : ({ st with laters := l } : St).live x = st.live x := rfl
+     rw [e, hlv hx] at hd; cases hd)⟩
+
+/-- `setListOf` with `a` erased from its list: `a` is excepted. -/
+theorem r2_setListOf_erase (st : St) (t : WType) (a : Nat) : R2 [a] st (setListOf st t ((listOf st t).erase a)) := by
+  have hmem : ∀ (l : List Nat) x, x ∈ l → x ∈ l.erase a ∨ x ∈ [a] := by
+    intro l x hx
+    by_cases e : x = a
+    · exact Or.inr (by simp [e])
+    · exact Or.inl ((List.mem_erase_of_ne e).mpr hx)
+  cases t with
+  | timer => exact r2_with_timers [a] st _ (hmem st.timers)
+  | later => exact r2_with_laters [a] st _ (hmem st.laters)
+  | io => exact R2.of_eq rfl rfl rfl rfl rfl rfl
+  | signal => exact R2.of_eq rfl rfl rfl rfl rfl rfl
+  | process => exact R2.of_eq rfl rfl rfl rfl rfl rfl
+  | none => exact R2.refl _ _
+
+theorem r2_raiseSig (E : List Nat) (st : St) (s : Int) : R2 E st (raiseSig st s) := by
+  unfold raiseSig
+  split
+  · exact R2.refl _ st
+  · split
+    · exact R2.of_eq rfl rfl rfl rfl rfl rfl
+    · split
+      · unfold sigRecord; split <;> first | exact R2.of_eq rfl rfl rfl rfl rfl rfl | exact R2.refl _ _
+      · split
+        · exact r2_with_bad_status E st _ (by intro h; cases h)
+        · exact R2.refl _ st
+
+theorem r2_evloopSignal (E : List Nat) (st : St) (s : Int) : R2 E st (evloopSignal st s).1 := by
+  unfold evloopSignal
+  simp only []
+  split <;> exact R2.of_eq rfl rfl rfl rfl rfl rfl
+
+theorem r2_evloopCancelSignal (E : List Nat) (st : St) (idx : Nat) : R2 E st (evloopCancelSignal st idx) := by
+  unfold evloopCancelSignal
+  simp only []
+  split
+  · exact R2.of_eq rfl rfl rfl rfl rfl rfl
+  · split
+    · split
+      · exact R2.of_bad rfl rfl rfl rfl
+      · exact R2.of_eq rfl rfl rfl rfl rfl rfl
+    · exact R2.of_eq rfl rfl rfl rfl rfl rfl
+
+theorem r2_insertWatch (E : List Nat) (st : St) (l : List Nat) (flags new : Nat) : R2 E st (insertWatch st l flags new).1 := by
+  unfold insertWatch
+  split
+  · exact R2.refl _ st
+  · split
+    · exact R2.refl _ st
+    · exact r2_fail E st _
+
+theorem r2_notify (E : List Nat) (st : St) (a flags : Nat) : R2 E st (notify st a flags) := by
+  unfold notify
+  simp only []
+  split
+  · exact r2_emit E st _
+  · exact R2.refl _ st
+
+theorem r2_waitpid (E : List Nat) (st : St) (pid : Int) : R2 E st (waitpid st pid).st := by
+  unfold waitpid
+  split
+  · split
+    · exact R2.of_eq rfl rfl rfl rfl rfl rfl
+    · split <;> exact R2.of_eq rfl rfl rfl rfl rfl rfl
+  · exact R2.refl _ st
+
+theorem r2_waitpidV (E : List Nat) (st : St) (pid : Int) : R2 E st (waitpidV st pid).st := by
+  unfold waitpidV
+  split
+  · exact r2_waitpid _ _ _
+  · exact R2.refl _ _
+
+theorem r2_evloopCancelIo (E : List Nat) (st : St) (idx : Nat) : R2 E st (evloopCancelIo st idx) := R2.of_eq rfl rfl rfl rfl rfl rfl
+
+theorem r2_evloopIo (E : List Nat) (st : St) (fd : Int) (cond : Nat) (w : Nat) : R2 E st (evloopIo st fd cond w).1 := by
+  unfold evloopIo
+  split <;> exact R2.of_eq rfl rfl rfl rfl rfl rfl
+
+theorem r2_cancelHook (E : List Nat) (st : St) (t : WType) (evi : Nat) : R2 E st (cancelHook st t evi) := by
+  unfold cancelHook
+  split
+  · exact r2_evloopCancelIo _ _ _
+  · exact r2_evloopCancelSignal _ _ _
+  · exact R2.refl _ _
+
+theorem r2_cancelNotify (E : List Nat) (st : St) (a : Nat) (w : Watch) : R2 E st (cancelNotify st a w) := by
+  unfold cancelNotify
+  split
+  · exact r2_notify _ _ _ _
+  · exact R2.refl _ _
+
+theorem r2_cancelRest (E : List Nat) (st : St) (rest : List Nat) : R2 E st (cancelRest st rest) := by
+  unfold cancelRest
+  split
+  · exact R2.refl _ _
+  · split
+    · exact r2_fail _ _ _
+    · exact R2.refl _ _
+
+theorem cancelReq_notify (st : St) (a flags : Nat) : (notify st a flags).cancelReq = st.cancelReq := by
+  unfold notify; simp only []; split <;> rfl
+theorem cancelReq_cancelNotify (st : St) (a : Nat) (w : Watch) : (cancelNotify st a w).cancelReq = st.cancelReq := by
+  unfold cancelNotify; split
+  · exact cancelReq_notify _ _ _
+  · rfl
+theorem cancelReq_cancelHook (st : St) (t : WType) (evi : Nat) : (cancelHook st t evi).cancelReq = st.cancelReq := by
+  unfold cancelHook
+  split
+  · rfl
+  · unfold evloopCancelSignal
+    simp only []
+    split
+    · rfl
+    · split
+      · split <;> rfl
+      · rfl
+  · rfl
+theorem cancelReq_setListOf (st : St) (t : WType) (l : List Nat) : (setListOf st t l).cancelReq = st.cancelReq := by cases t <;> rfl
+theorem heap_cancelNotify (st : St) (a : Nat) (w : Watch) : (cancelNotify st a w).heap = st.heap := by
+  unfold cancelNotify; split
+  · exact heap_notify _ _ _
+  · rfl
+
+/-- After `free(a)` in a history that is still ok, `a` is not live. -/
+theorem dead_after_free (st : St) (a : Nat) (h : (st.free a).isOk = true) : (st.free a).live a = false := by
+  cases hl : st.live a with
+  | true => exact St.live_free_self st a hl
+  | false =>
+    unfold St.free at h
+    rw [if_neg (by rw [hl]; simp)] at h
+    rw [St.isOk_fail] at h; cases h
+
+theorem live_cancelRest (st : St) (rest : List Nat) (x : Nat) : (cancelRest st rest).live x = st.live x := by
+  unfold cancelRest
+  split
+  · rfl
+  · split
+    · exact St.live_fail _ _ _
+    · rfl
+
+theorem isOk_cancelRest (st : St) (rest : List Nat) (h : (cancelRest st rest).isOk = true) : st.isOk = true :=
+  (r2_cancelRest [] st rest).h.ok h
+
+/-- `tickit_watch_cancel` once the watch has been found (`w`, `l` as `watchCancel` passes them). -/
+theorem r2_cancelFound (st : St) (a : Nat)
+    (ha : isOneShot (st.getW a).type = false ∨ (st.getW a).slot ∈ st.cancelReq) :
+    R2 [] st (cancelFound st a (st.getW a) (listOf st (st.getW a).type)) := by
+  unfold cancelFound
+  have h1 := r2_setListOf_erase st (st.getW a).type a
+  have h2 := r2_cancelNotify [a] (setListOf st (st.getW a).type ((listOf st (st.getW a).type).erase a)) a (st.getW a)
+  have h3 := r2_cancelHook [a] (cancelNotify (setListOf st (st.getW a).type ((listOf st (st.getW a).type).erase a)) a (st.getW a))
+    (st.getW a).type (st.getW a).evi
+  have hheap : (cancelHook (cancelNotify (setListOf st (st.getW a).type ((listOf st (st.getW a).type).erase a)) a (st.getW a))
+      (st.getW a).type (st.getW a).evi).heap = st.heap := by
+    rw [heap_cancelHook, heap_cancelNotify, heap_setListOf]
+  have hcr : (cancelHook (cancelNotify (setListOf st (st.getW a).type ((listOf st (st.getW a).type).erase a)) a (st.getW a))
+      (st.getW a).type (st.getW a).evi).cancelReq = st.cancelReq := by
+    rw [cancelReq_cancelHook, cancelReq_cancelNotify, cancelReq_setListOf]
+  generalize (cancelHook (cancelNotify (setListOf st (st.getW a).type ((listOf st (st.getW a).type).erase a)) a (st.getW a))
+      (st.getW a).type (st.getW a).evi) = s3 at *
+  have h4 := r2_free [a] s3 a (by rw [getW_of_heap_eq hheap, hcr]; exact ha)
+  have h5 := r2_cancelRest [a] (s3.free a) (((listOf st (st.getW a).type).dropWhile (· ≠ a)).drop 1)
+  refine ((((h1.trans h2).trans h3).trans h4).trans h5).drop ?_
+  intro hok x hx
+  simp only [List.mem_singleton] at hx
+  subst hx
+  left
+  rw [live_cancelRest]
+  exact dead_after_free s3 x (isOk_cancelRest _ _ hok)
+
+theorem r2_watchCancel (E : List Nat) (st : St) (a : Nat)
+    (ha : isOneShot (st.getW a).type = false ∨ (st.getW a).slot ∈ st.cancelReq) : R2 E st (watchCancel st a) := by
+  unfold watchCancel
+  split
+  · exact R2.refl _ st
+  · split
+    · exact r2_fail _ _ _
+    · split
+      · exact R2.refl _ st
+      · split
+        · exact r2_fail _ _ _
+        · split
+          · exact R2.refl _ st
+          · exact (r2_cancelFound st a ha).mono (fun x hx => by cases hx)
+
+/-- `watch->type = WATCH_NONE; free(watch);` — the freed watch has no type any more. -/
+theorem r2_setNoneFree (E : List Nat) (st : St) (a : Nat) : R2 E st ((st.setW a { st.getW a with type := .none }).free a) := by
+  have q := q0_setNoneFree st a
+  have hlen : ((st.setW a { st.getW a with type := .none }).free a).heap.length = st.heap.length := by
+    unfold St.free; split
+    · rw [St.length_setW, St.length_setW]
+    · rw [St.heap_fail, St.length_setW]
+  have hal : ((st.setW a { st.getW a with type := .none }).free a).alive = st.alive := by
+    unfold St.free; split <;> first | rfl | (unfold St.fail; split <;> rfl)
+  have hcr : ((st.setW a { st.getW a with type := .none }).free a).cancelReq = st.cancelReq := by
+    unfold St.free; split <;> first | rfl | (unfold St.fail; split <;> rfl)
+  have hti : ((st.setW a { st.getW a with type := .none }).free a).timers = st.timers := by rw [lists_free_timers]; rfl
+  have hla : ((st.setW a { st.getW a with type := .none }).free a).laters = st.laters := by
+    have := lists_free (st.setW a { st.getW a with type := .none }) a .later
+    exact this
+  refine ⟨q.b.h, hal, fun k hk => by rw [hcr]; exact hk, fun _ x hx _ => Or.inl (by rw [hti]; exact hx),
+    fun _ x hx _ => Or.inl (by rw [hla]; exact hx), fun _ x h1 h2 => by omega, ?_⟩
+  intro x hx hlv hd
+  rw [hlen] at hx
+  by_cases hax : a = x
+  · subst hax
+    left
+    have : (((st.setW a { st.getW a with type := .none }).free a).getW a).type = .none := by
+      have hs : ((st.setW a { st.getW a with type := .none }).getW a).type = .none := by
+        rw [St.getW_setW_self st a _ hx]
+      have hm := (mh_free (st.setW a { st.getW a with type := .none }) a).typ a (by rw [St.length_setW]; exact hx)
+      rcases hm with e | e
+      · rw [e, hs]
+      · exact e
+    rw [this]; rfl
+  · rw [St.live_free_ne _ _ _ hax, St.live_setW_ne _ _ _ _ hax, hlv hx] at hd; cases hd
+
+theorem r2_unlinkOneshot (E : List Nat) (st : St) (a : Nat) : R2 E st (unlinkOneshot st a) := by
+  unfold unlinkOneshot
+  split
+  · exact r2_fail _ _ _
+  · split
+    · exact R2.refl _ _
+    · split
+      · exact r2_fail _ _ _
+      · split
+        · exact R2.refl _ _
+        · have h1 := r2_setListOf_erase st (st.getW a).type a
+          have h2 := r2_setNoneFree [a] (setListOf st (st.getW a).type ((listOf st (st.getW a).type).erase a)) a
+          rw [getW_setListOf] at h2
+          refine ((h1.trans h2).drop ?_).mono (fun x hx => by cases hx)
+          intro hok x hx
+          simp only [List.mem_singleton] at hx
+          subst hx
+          exact Or.inl (dead_after_free _ x hok)
+
+theorem r2_unlinkOneshotSaved (E : List Nat) (st : St) (a : Nat) (t : WType) : R2 E st (unlinkOneshotSaved st a t) := by
+  unfold unlinkOneshotSaved
+  split
+  · exact R2.refl _ _
+  · split
+    · exact r2_fail _ _ _
+    · split
+      · exact R2.refl _ _
+      · have h1 := r2_setListOf_erase st t a
+        have h2 := r2_setNoneFree [a] (setListOf st t ((listOf st t).erase a)) a
+        rw [getW_setListOf] at h2
+        refine ((h1.trans h2).drop ?_).mono (fun x hx => by cases hx)
+        intro hok x hx
+        simp only [List.mem_singleton] at hx
+        subst hx
+        exact Or.inl (dead_after_free _ x hok)
+
+/-! constructors: the new watch is excepted until it is linked -/
+
+theorem r2_alloc (st : St) (w : Watch) (hw : w.freed = false) : R2 [st.heap.length] st (st.alloc w).1 := by
+  have hlen := alloc_len st w
+  refine ⟨mh_alloc st w, rfl, fun _ h => h, fun _ x hx _ => Or.inl hx, fun _ x hx _ => Or.inl hx, ?_, ?_⟩
+  · intro _ x h1 h2 _
+    rw [hlen] at h2
+    have : x = st.heap.length := by omega
+    subst this
+    exact ⟨fun _ => Or.inr (by simp), fun _ => Or.inr (by simp)⟩
+  · intro x hx hlv hd
+    rw [hlen] at hx
+    by_cases e : x < st.heap.length
+    · rw [live_alloc_old st w x e, hlv e] at hd; cases hd
+    · have : x = st.heap.length := by omega
+      subst this
+      rw [live_alloc_new st w hw] at hd; cases hd
+
+/-- An allocated watch that is not a timer / deferred callback needs no exception. -/
+theorem R2.drop_other {st st' : St} {a : Nat} (h : R2 [a] st st') (ha : a < st'.heap.length)
+    (ht : isOneShot (st'.getW a).type = false) (hn1 : a ∉ st.timers) (hn2 : a ∉ st.laters) : R2 [] st st' := by
+  refine h.drop ?_
+  intro _ x hx
+  simp only [List.mem_singleton] at hx
+  subst hx
+  right
+  refine ⟨fun e => ?_, fun e => ?_, fun e => absurd e hn1, fun e => absurd e hn2⟩
+  · rw [e] at ht; cases ht
+  · rw [e] at ht; cases ht
+
+theorem r2_watchTimerAt (st : St) (due : TV) (flags : Nat) (slot : Int) : R2 [] st (watchTimerAt st due flags slot).1 := by
+  unfold watchTimerAt
+  simp only []
+  have hA := r2_alloc st { type := .timer, flags := flags &&& (BIND_UNBIND ||| BIND_DESTROY), slot := slot, due := due } rfl
+  have hgw := getW_alloc_new st { type := .timer, flags := flags &&& (BIND_UNBIND ||| BIND_DESTROY), slot := slot, due := due }
+  have hlat : (st.alloc { type := .timer, flags := flags &&& (BIND_UNBIND ||| BIND_DESTROY), slot := slot, due := due }).1.laters = st.laters := rfl
+  generalize (st.alloc { type := .timer, flags := flags &&& (BIND_UNBIND ||| BIND_DESTROY), slot := slot, due := due }).1 = s1 at *
+  split
+  · rename_i l hl
+    have hmem := insTimer_mem s1 _ due _ l hl
+    refine (hA.trans (r2_with_timers _ s1 l (fun x hx => Or.inl ((hmem x).mpr (Or.inr hx))))).drop ?_
+    intro _ x hx
+    simp only [List.mem_singleton] at hx
+    subst hx
+    right
+    refine ⟨fun _ => (hmem _).mpr (Or.inl rfl), fun e => ?_, fun _ => (hmem _).mpr (Or.inl rfl), fun e => ?_⟩
+    · have : (({ s1 with timers := l } : St).getW st.heap.length).type = .timer := by
+        show (s1.getW st.heap.length).type = .timer; rw [hgw]
+      rw [this] at e; cases e
+    · show st.heap.length ∈ s1.laters; rw [hlat]; exact e
+  · refine (hA.trans (r2_fail _ _ _)).drop ?_
+    intro hok; rw [St.isOk_fail] at hok; cases hok
+
+theorem r2_watchTimerAfterMsec (st : St) (msec : Int) (flags : Nat) (slot : Int) : R2 [] st (watchTimerAfterMsec st msec flags slot).1 := by
+  unfold watchTimerAfterMsec
+  exact (r2_emit [] st _).trans (r2_watchTimerAt _ _ _ _)
+
+theorem r2_watchLater (st : St) (flags : Nat) (slot : Int) (puser : Nat) : R2 [] st (watchLater st flags slot puser).1 := by
+  unfold watchLater
+  simp only []
+  have hA := r2_alloc st { type := .later, flags := flags &&& (BIND_UNBIND ||| BIND_DESTROY), slot := slot, puser := puser } rfl
+  have hgw := getW_alloc_new st { type := .later, flags := flags &&& (BIND_UNBIND ||| BIND_DESTROY), slot := slot, puser := puser }
+  have htim : (st.alloc { type := .later, flags := flags &&& (BIND_UNBIND ||| BIND_DESTROY), slot := slot, puser := puser }).1.timers = st.timers := rfl
+  generalize (st.alloc { type := .later, flags := flags &&& (BIND_UNBIND ||| BIND_DESTROY), slot := slot, puser := puser }).1 = s1 at *
+  have hI := r2_insertWatch [st.heap.length] s1 s1.laters flags st.heap.length
+  have hheap := heap_insertWatch s1 s1.laters flags st.heap.length
+  have hsub : ∀ x ∈ (insertWatch s1 s1.laters flags st.heap.length).1.laters, x ∈ (insertWatch s1 s1.laters flags st.heap.length).2 ∨ x ∈ [st.heap.length] := by
+    intro x hx
+    have hx' : x ∈ s1.laters := by
+      have : (insertWatch s1 s1.laters flags st.heap.length).1.laters = s1.laters := by
+        unfold insertWatch; split
+        · rfl
+        · split
+          · rfl
+          · unfold St.fail; split <;> rfl
+      rw [this] at hx; exact hx
+    rcases snd_insertWatch s1 s1.laters flags st.heap.length with e | e | e <;> rw [e]
+    · exact Or.inl (List.mem_cons_of_mem _ hx')
+    · exact Or.inl (List.mem_append_left _ hx')
+    · exact Or.inl hx'
+  refine ((hA.trans hI).trans (r2_with_laters _ _ _ hsub)).drop ?_
+  intro hok x hx
+  simp only [List.mem_singleton] at hx
+  subst hx
+  right
+  -- in an ok history the new watch has been linked
+  have hin : st.heap.length ∈ (insertWatch s1 s1.laters flags st.heap.length).2 := by
+    unfold insertWatch at hok ⊢
+    split
+    · exact List.mem_cons_self
+    · split
+      · simp
+      · rename_i h1 h2
+        rw [if_neg h1, if_neg h2] at hok
+        have : (({ s1.fail Ub.insertWalk with laters := s1.laters } : St)).isOk = (s1.fail Ub.insertWalk).isOk := rfl
+        rw [this, St.isOk_fail] at hok; cases hok
+  refine ⟨fun e => ?_, fun _ => hin, fun e => ?_, fun _ => hin⟩
+  · have : (({ (insertWatch s1 s1.laters flags st.heap.length).1 with laters := (insertWatch s1 s1.laters flags st.heap.length).2 } : St).getW st.heap.length).type = .later := by
+      show ((insertWatch s1 s1.laters flags st.heap.length).1.getW st.heap.length).type = .later
+      rw [getW_of_heap_eq hheap, hgw]
+    rw [this] at e; cases e
+  · -- the new address is not in the old timer queue … but if it were, the queue is untouched
+    have : (({ (insertWatch s1 s1.laters flags st.heap.length).1 with laters := (insertWatch s1 s1.laters flags st.heap.length).2 } : St)).timers = st.timers := by
+      show (insertWatch s1 s1.laters flags st.heap.length).1.timers = st.timers
+      have h1 : (insertWatch s1 s1.laters flags st.heap.length).1.timers = s1.timers := by
+        unfold insertWatch; split
+        · rfl
+        · split
+          · rfl
+          · exact St.timers_fail _ _
+      rw [h1, htim]
+    rw [this]; exact e
+
+theorem r2_alloc_other (E : List Nat) (st : St) (w : Watch) (hw : w.freed = false) (ht : isOneShot w.type = false) :
+    R2 E st (st.alloc w).1 := by
+  have hlen := alloc_len st w
+  refine ⟨mh_alloc st w, rfl, fun _ h => h, fun _ x hx _ => Or.inl hx, fun _ x hx _ => Or.inl hx, ?_, ?_⟩
+  · intro _ x h1 h2 _
+    rw [hlen] at h2
+    have : x = st.heap.length := by omega
+    subst this
+    rw [getW_alloc_new]
+    exact ⟨fun e => (by rw [e] at ht; cases ht), fun e => (by rw [e] at ht; cases ht)⟩
+  · intro x hx hlv hd
+    rw [hlen] at hx
+    by_cases e : x < st.heap.length
+    · rw [live_alloc_old st w x e, hlv e] at hd; cases hd
+    · have : x = st.heap.length := by omega
+      subst this
+      rw [live_alloc_new st w hw] at hd; cases hd
+
+theorem r2_watchIo (E : List Nat) (st : St) (fd : Int) (cond flags : Nat) (slot : Int) : R2 E st (watchIo st fd cond flags slot).1 := by
+  unfold watchIo
+  simp only []
+  exact ((((r2_alloc_other E st _ rfl rfl).trans (r2_evloopIo _ _ _ _ _)).trans (r2_setEvi _ _ _ _)).trans (r2_insertWatch _ _ _ _ _)).trans
+    (r2_with_iow _ _ _)
+
+theorem r2_watchSignalPre (E : List Nat) (st : St) (signum : Int) (flags : Nat) (slot : Int) :
+    R2 E st (watchSignalPre st signum flags slot) := by
+  unfold watchSignalPre
+  exact ((r2_alloc_other E st { type := .signal, flags := flags &&& (BIND_UNBIND ||| BIND_DESTROY), slot := slot, signum := signum } rfl rfl).trans
+    (r2_evloopSignal _ _ _)).trans (r2_setEvi _ _ _ _)
+
+theorem r2_watchSignal (E : List Nat) (st : St) (signum : Int) (flags : Nat) (slot : Int) :
+    R2 E st (watchSignal st signum flags slot).1 := by
+  unfold watchSignal
+  exact ((r2_watchSignalPre E st signum flags slot).trans (r2_insertWatch _ _ _ _ _)).trans (r2_with_signals _ _ _)
+
+theorem r2_ensureSigchld (E : List Nat) (st : St) : R2 E st (ensureSigchld st) := by
+  unfold ensureSigchld
+  split
+  · exact R2.refl _ _
+  · exact (r2_watchSignal E st SIGCHLD 0 (-3)).trans
+      (R2.of_eq rfl rfl rfl rfl rfl rfl : R2 E (watchSignal st SIGCHLD 0 (-3)).1
+        { (watchSignal st SIGCHLD 0 (-3)).1 with sigchldwatch := some (watchSignal st SIGCHLD 0 (-3)).2 })
+
+theorem r2_linkProcess (st : St) (a : Nat) (pid : Int) (flags : Nat) : R2 [] st (linkProcess st a pid flags) := by
+  unfold linkProcess
+  simp only []
+  split
+  · exact ((r2_waitpid [] st pid).trans (r2_setWstatus _ _ _ _)).trans (r2_watchLater _ _ _ _)
+  · exact ((r2_waitpid [] st pid).trans (r2_insertWatch _ _ _ _ _)).trans (r2_with_procs _ _ _)
+
+theorem r2_watchProcess (st : St) (pid : Int) (flags : Nat) (slot : Int) : R2 [] st (watchProcess st pid flags slot).1 := by
+  unfold watchProcess
+  exact ((r2_alloc_other [] st { type := .process, flags := flags &&& (BIND_UNBIND ||| BIND_DESTROY), slot := slot, pid := pid } rfl rfl).trans
+    (r2_ensureSigchld _ _)).trans (r2_linkProcess _ _ _ _)
+
+theorem r2_doRegister (st : St) (k : Int) (reg : St → St × Nat) (hreg : ∀ s, R2 [] s (reg s).1) : R2 [] st (doRegister st k reg) := by
+  unfold doRegister
+  split
+  · exact r2_emit _ _ _
+  · split
+    · exact r2_emit _ _ _
+    · exact (hreg st).trans (R2.of_eq rfl rfl rfl rfl rfl rfl)
 
 /-! ### the invariants -/
 
@@ -767,6 +1413,171 @@ theorem Once.release_other {st : St} {c : Nat} (o : Once (some c) st) (h : isOne
   by_cases e : r.handle = c
   · rw [e, h] at ho; cases ho
   · exact o2 hok hl (fun hh => e (Option.some.inj hh))
+
+/-- `tickit_watch_cancel` through the harness's table: the request is noted first. -/
+theorem r2_doCancel (st : St) (k : Int) (hk : K st) : R2 [] st (doCancel st k) := by
+  unfold doCancel
+  split
+  · exact r2_emit _ _ _
+  · rename_i r hsome
+    obtain ⟨hr, hrk⟩ := findSlot_some hsome
+    have h1 : R2 [] st { st with cancelReq := k :: st.cancelReq } :=
+      ⟨MH.of_heap_eq rfl rfl, rfl, fun x hx => List.mem_cons_of_mem _ hx, fun _ x hx _ => Or.inl hx, fun _ x hx _ => Or.inl hx,
+       fun _ x h1 h2 => (by have : ({ st with cancelReq := k :: st.cancelReq } : St).heap.length = st.heap.length := rfl; omega),
+       fun x hx hlv hd => (by
+         have e : ({ st with cancelReq := k :: st.cancelReq } : St).live x = st.live x := rfl
+         rw [e, hlv hx] at hd; cases hd)⟩
+    refine h1.trans (r2_watchCancel [] _ r.handle (Or.inr ?_))
+    show (st.getW r.handle).slot ∈ k :: st.cancelReq
+    rw [(hk.s3 r hr).2, hrk]
+    exact List.mem_cons_self
+
+theorem r2_runAct (st : St) (act : Act) (hk : K st) : R2 [] st (runAct st act) := by
+  unfold runAct
+  split
+  · exact R2.refl _ _
+  · cases act with
+    | timer k ms flags =>
+      simp only []
+      split
+      · exact r2_doRegister st k _ (fun s => r2_watchTimerAfterMsec s ms flags k)
+      · exact R2.refl _ _
+    | timerAt k sec usec flags =>
+      simp only []
+      split
+      · exact r2_doRegister st k _ (fun s => r2_watchTimerAt s ⟨sec, usec⟩ flags k)
+      · exact R2.refl _ _
+    | later k flags => exact r2_doRegister st k _ (fun s => r2_watchLater s flags k 0)
+    | io k fd cond flags => exact r2_doRegister st k _ (fun s => r2_watchIo [] s fd cond flags k)
+    | signal k sig flags =>
+      simp only []
+      split
+      · exact r2_doRegister st k _ (fun s => r2_watchSignal [] s sig flags k)
+      · exact R2.refl _ _
+    | process k pid flags =>
+      simp only []
+      split
+      · exact r2_doRegister st k _ (fun s => r2_watchProcess s pid flags k)
+      · exact R2.refl _ _
+    | cancel k => exact r2_doCancel st k hk
+    | errno v => exact r2_with_errno [] st v
+    | raise s =>
+      simp only []
+      split
+      · exact r2_raiseSig [] st s
+      · exact R2.refl _ _
+    | exit pid status =>
+      simp only []
+      split
+      · split
+        · exact R2.refl _ _
+        · exact r2_with_children [] st _
+      · exact R2.refl _ _
+    | stop => exact r2_with_stillRunning [] st false
+    | nop => exact R2.refl _ _
+
+theorem r2_runActs (acts : List Act) : ∀ st : St, K st →
+    R2 [] st (acts.foldl (fun st act => if st.isOk then runAct (st.emit .a) act else st) st) := by
+  induction acts with
+  | nil => intro st _; exact R2.refl _ st
+  | cons a rest ih =>
+    intro st hk
+    simp only [List.foldl_cons]
+    by_cases hok : st.isOk = true
+    · rw [if_pos hok]
+      have k1 : K (st.emit .a) := K.of_q (Q.of_q0 (q0_emit st _)) hk
+      exact ((r2_emit [] st _).trans (r2_runAct _ a k1)).trans (ih _ (K.of_q (q_runAct _ a) k1))
+    · rw [if_neg hok]
+      exact ih _ hk
+
+/-! ### nothing is lost, nothing vanishes uninvoked -/
+
+/-- An allocated timer / deferred callback is queued (or is one of `D`: detached by the running iteration). -/
+def Listed (D : List Nat) (st : St) : Prop :=
+  st.isOk = true → st.alive = true → ∀ a, a < st.heap.length → st.live a = true →
+    ((st.getW a).type = .timer → a ∈ st.timers ∨ a ∈ D) ∧ ((st.getW a).type = .later → a ∈ st.laters ∨ a ∈ D)
+
+/-- A timer / deferred callback that is gone, in a live instance, without a cancel having been asked for,
+    has been invoked. -/
+def Gone (st : St) : Prop :=
+  st.alive = true → ∀ r ∈ st.slots, isOneShot (st.getW r.handle).type = true → r.k ∉ st.cancelReq →
+    st.live r.handle = false → r.fires = 1
+
+theorem Listed.of_r2 {D : List Nat} {st st' : St} (r : R2 [] st st') (l : Listed D st) : Listed D st' := by
+  intro hok hal a ha hl
+  have hok0 := r.h.ok hok
+  have hal0 : st.alive = true := by rw [← r.alive]; exact hal
+  by_cases hold : a < st.heap.length
+  · have hl0 := r.h.live a hold hl
+    obtain ⟨l1, l2⟩ := l hok0 hal0 a hold hl0
+    constructor
+    · intro ht
+      have ht0 : (st.getW a).type = .timer := by rw [← r.h.oneShot hold (by rw [ht]; rfl)]; exact ht
+      rcases l1 ht0 with h | h
+      · rcases r.stayT hok a h hold with h' | h' | h'
+        · exact Or.inl h'
+        · rw [hl] at h'; cases h'
+        · cases h'
+      · exact Or.inr h
+    · intro ht
+      have ht0 : (st.getW a).type = .later := by rw [← r.h.oneShot hold (by rw [ht]; rfl)]; exact ht
+      rcases l2 ht0 with h | h
+      · rcases r.stayL hok a h hold with h' | h' | h'
+        · exact Or.inl h'
+        · rw [hl] at h'; cases h'
+        · cases h'
+      · exact Or.inr h
+  · obtain ⟨n1, n2⟩ := r.newl hok a (by omega) ha hl
+    exact ⟨fun ht => (n1 ht).elim Or.inl (fun h => by cases h), fun ht => (n2 ht).elim Or.inl (fun h => by cases h)⟩
+
+theorem Listed.drop {D : List Nat} {st : St} {a : Nat} (l : Listed (a :: D) st) (h : st.isOk = true → st.live a = false) : Listed D st := by
+  intro hok hal x hx hl
+  obtain ⟨l1, l2⟩ := l hok hal x hx hl
+  have hne : x ≠ a := by intro e; subst e; rw [h hok] at hl; cases hl
+  constructor
+  · intro ht
+    rcases l1 ht with e | e
+    · exact Or.inl e
+    · simp only [List.mem_cons] at e
+      rcases e with e | e
+      · exact absurd e hne
+      · exact Or.inr e
+  · intro ht
+    rcases l2 ht with e | e
+    · exact Or.inl e
+    · simp only [List.mem_cons] at e
+      rcases e with e | e
+      · exact absurd e hne
+      · exact Or.inr e
+
+theorem Listed.mono {D D' : List Nat} {st : St} (l : Listed D st) (h : ∀ x ∈ D, x ∈ D') : Listed D' st :=
+  fun hok hal a ha hl => ⟨fun ht => ((l hok hal a ha hl).1 ht).imp id (h a), fun ht => ((l hok hal a ha hl).2 ht).imp id (h a)⟩
+
+theorem Listed.of_not_ok {D D' : List Nat} {st : St} (h : st.isOk = false) : Listed D' st :=
+  fun hok => by rw [h] at hok; cases hok
+
+theorem Gone.of_r2 {st st' : St} (r : R2 [] st st') (q : Q st st') (k : K st) (g : Gone st) : Gone st' := by
+  obtain ⟨ns, e, f⟩ := q.slots
+  intro hal r' hr' ho hnc hd
+  have hal0 : st.alive = true := by rw [← r.alive]; exact hal
+  rw [e] at hr'
+  simp only [List.mem_append] at hr'
+  have key : ∀ x, x < st'.heap.length → (x < st.heap.length → st.live x = true) → st'.live x = false →
+      isOneShot (st'.getW x).type = true → (st'.getW x).slot ∉ st'.cancelReq → False := by
+    intro x h1 h2 h3 h4 h5
+    rcases r.gone x h1 h2 h3 with h | h
+    · rw [h] at h4; cases h4
+    · exact h5 h
+  rcases hr' with hr | hr
+  · obtain ⟨h1, h2⟩ := k.s3 r' hr
+    have hslot' : (st'.getW r'.handle).slot = r'.k := by rw [r.h.slot _ h1]; exact h2
+    cases hl0 : st.live r'.handle with
+    | false =>
+      exact g hal0 r' hr (by rw [← r.h.oneShot h1 ho]; exact ho) (fun hc => hnc (r.creq _ hc)) hl0
+    | true =>
+      exact False.elim (key r'.handle (Nat.lt_of_lt_of_le h1 r.h.len) (fun _ => hl0) hd ho (by rw [hslot']; exact hnc))
+  · obtain ⟨_, p2, p3, p4, _⟩ := f r' hr
+    exact False.elim (key r'.handle p3 (fun hlt => by omega) hd ho (by rw [p4]; exact hnc))
 
 /-! ### counting an invocation -/
 
@@ -892,616 +1703,5 @@ theorem fireUser_neg (st : St) (key : Int) (flags : Nat) (info : Info) (k : K st
     obtain ⟨hr, hrk⟩ := findSlot_some hsome
     have := k.s4 r hr
     omega
-
-/-! ### the bundle that every function of the loop preserves -/
-
-/-- The repaired source. -/
-def Rep (cfg : Config) : Prop :=
-  cfg.timersPop = true ∧ cfg.invokeTypeSaved = true ∧ cfg.sigSnapshot = true ∧ cfg.procSnapshot = true
-
-structure B (st : St) : Prop where
-  rep : Rep st.cfg
-  wf : WF st
-  k : K st
-  o : Once none st
-
-def BStep (st st' : St) : Prop := B st → B st'
-
-theorem BStep.refl (st : St) : BStep st st := fun b => b
-theorem BStep.trans {a b c : St} (h1 : BStep a b) (h2 : BStep b c) : BStep a c := fun x => h2 (h1 x)
-
-/-- A step that is both a quiet step (`Q`) and a list step (`LStep`). -/
-theorem BStep.of_q {st st' : St} (q : Q st st') (l : LStep st st') : BStep st st' := by
-  intro b
-  have f := l b.rep.1 b.wf
-  exact ⟨by rw [f.cfg]; exact b.rep, f.wf, K.of_q q b.k, Once.none_of_q q b.k b.o⟩
-
-theorem BStep.of_q0 {st st' : St} (q : Q0 st st') (l : LStep st st') : BStep st st' := BStep.of_q (Q.of_q0 q) l
-
-theorem b_fail (st : St) (w : Ub) : BStep st (st.fail w) := BStep.of_q0 (q0_fail _ _) (g4_fail _ _).lstep
-theorem b_emit (st : St) (e : Ev) : BStep st (st.emit e) := BStep.of_q0 (q0_emit _ _) (g4_emit _ _).lstep
-theorem b_outOfFuel (st : St) : BStep st (if st.isOk then { st with status := .outOfFuel } else st) := by
-  split
-  · exact BStep.of_q0 (q0_with_status _ _ (by intro h; cases h)) (g4_with_status _ _).lstep
-  · exact BStep.refl _
-
-theorem isOk_of_not_not {st : St} (h : ¬(!st.isOk) = true) : st.isOk = true := by
-  cases hh : st.isOk with
-  | true => rfl
-  | false => rw [hh] at h; exact absurd rfl h
-
-/-- Invoking the harness's callback of a watch that is not a timer / deferred callback. -/
-theorem b_fire_other (st : St) (c : Nat) (flags : Nat) (info : Info) (hc : c < st.heap.length)
-    (ht : isOneShot (st.getW c).type = false) (hk : (st.getW c).slot ≥ 0) (hok : st.isOk = true) :
-    BStep st (fireUser st (st.getW c).slot flags info) := by
-  intro b
-  have f := fire_spec st c flags info b.k b.o hc hk hok (fun h => by rw [ht] at h; cases h)
-  have l := l_fireUser st (st.getW c).slot flags info b.rep.1 b.wf
-  exact ⟨by rw [l.cfg]; exact b.rep, l.wf, f.k, f.o.release_other (f.h.notOneShot hc ht)⟩
-
-theorem b_invokeWatch (st : St) (a : Nat) (flags : Nat) (info : Info) (ha : a < st.heap.length)
-    (ht : isOneShot (st.getW a).type = false) : BStep st (invokeWatch st a flags info) := by
-  unfold invokeWatch
-  split
-  · exact BStep.refl _
-  · rename_i hok
-    have hok' := isOk_of_not_not hok
-    have hX : BStep st (if (st.getW a).slot ≥ 0 then fireUser st (st.getW a).slot flags info else st) := by
-      split
-      · rename_i hk; exact b_fire_other st a flags info ha ht hk hok'
-      · exact BStep.refl _
-    generalize (if (st.getW a).slot ≥ 0 then fireUser st (st.getW a).slot flags info else st) = X at hX ⊢
-    split
-    · exact b_fail _ _
-    · split
-      · exact hX
-      · split
-        · exact hX.trans (BStep.of_q0 (q0_unlinkOneshotSaved _ _ _) (l_unlinkOneshotSaved _ a _))
-        · exact hX.trans (BStep.of_q0 (q0_unlinkOneshot _ _) (l_unlinkOneshot _ a))
-
-theorem b_procStep (st : St) (a : Nat) (ha : a < st.heap.length) (ht : isOneShot (st.getW a).type = false) :
-    BStep st (procStep st a) := by
-  unfold procStep
-  have q := q0_waitpidV st (st.getW a).pid
-  have hw : BStep st (waitpidV st (st.getW a).pid).st := BStep.of_q0 q (g4_waitpidV _ _).lstep
-  split
-  · exact hw
-  · exact hw.trans (b_invokeWatch _ a _ _ (Nat.lt_of_lt_of_le ha q.b.h.len) (q.b.h.notOneShot ha ht))
-
-theorem b_procSnapLoop (l : List Nat) : ∀ st : St, BStep st (procSnapLoop st l) := by
-  induction l with
-  | nil => intro st; exact BStep.refl st
-  | cons a rest ih =>
-    intro st
-    unfold procSnapLoop
-    split
-    · exact BStep.refl _
-    · split
-      · exact b_fail _ _
-      · split
-        · exact ih _
-        · rename_i hin
-          split
-          · exact b_fail _ _
-          · intro b
-            have hmem : a ∈ listOf st .process := by
-              have : st.procs.contains a = true := by
-                cases hh : st.procs.contains a with
-                | true => rfl
-                | false => rw [hh] at hin; exact absurd rfl hin
-              show a ∈ st.procs
-              simpa using this
-            have hty := b.wf.typ .process a hmem
-            exact ih _ (b_procStep st a (b.wf.alloc hmem) (by rw [hty]; rfl) b)
-
-theorem b_onSigchldAny (fuel : Nat) (st : St) : BStep st (onSigchldAny fuel st) := by
-  intro b
-  unfold onSigchldAny
-  rw [if_pos b.rep.2.2.2]
-  split
-  · exact b_fail _ _ b
-  · exact b_procSnapLoop _ _ b
-
-theorem b_processNotify (st : St) (a : Nat) (ha : a < st.heap.length) (hs : (st.getW a).slot = -4) :
-    BStep st (processNotify st a) := by
-  intro b
-  unfold processNotify
-  obtain ⟨h1, h2⟩ := b.k.p2 a ha hs
-  split
-  · exact b_fail _ _ b
-  · exact b_invokeWatch _ _ _ _ h1 h2 b
-
-/-- What the callback of a deferred callback `a` leaves behind: everything but `Once`, which holds with `a`
-    as the running watch (the harness's callback) or outright (an internal one). -/
-structure After (st' : St) (a : Nat) : Prop where
-  rep : Rep st'.cfg
-  wf : WF st'
-  k : K st'
-  o : Once (some a) st' ∨ Once none st'
-
-theorem After.of_b {st' : St} {a : Nat} (b : B st') : After st' a := ⟨b.rep, b.wf, b.k, Or.inr b.o⟩
-
-/-- … and once the watch is gone — freed, or the history has left defined behaviour — the bundle is back. -/
-theorem After.b_of_not_ok {st' : St} {a : Nat} (x : After st' a) (h : st'.isOk = false) : B st' :=
-  ⟨x.rep, x.wf, x.k, x.o.elim (fun o => o.of_not_ok h) (fun o => o)⟩
-
-theorem After.b_of_dead {st' : St} {a : Nat} (x : After st' a) (h : st'.live a = false) : B st' :=
-  ⟨x.rep, x.wf, x.k, x.o.elim (fun o => o.release h) (fun o => o)⟩
-
-/-- A quiet step after the callback. -/
-theorem After.step {s1 s2 : St} {a : Nat} (x : After s1 a) (ha : a < s1.heap.length) (q : Q0 s1 s2) (l : LStep s1 s2) : After s2 a := by
-  have f := l x.rep.1 x.wf
-  exact ⟨by rw [f.cfg]; exact x.rep, f.wf, K.of_q (Q.of_q0 q) x.k,
-    x.o.elim (fun o => Or.inl (Once.of_q (Q.of_q0 q) x.k (fun y hy => by cases hy; exact ha) o))
-             (fun o => Or.inr (Once.none_of_q (Q.of_q0 q) x.k o))⟩
-
-theorem after_fire (st : St) (a : Nat) (flags : Nat) (info : Info) (b : B st) (ha : a < st.heap.length)
-    (hk : (st.getW a).slot ≥ 0) (hok : st.isOk = true) (hl : st.live a = true) :
-    After (fireUser st (st.getW a).slot flags info) a := by
-  have f := fire_spec st a flags info b.k b.o ha hk hok (fun _ => hl)
-  have l := l_fireUser st (st.getW a).slot flags info b.rep.1 b.wf
-  exact ⟨by rw [l.cfg]; exact b.rep, l.wf, f.k, Or.inl f.o⟩
-
-theorem after_laterCb (st : St) (a : Nat) (b : B st) (ha : a < st.heap.length) (hok : st.isOk = true) (hl : st.live a = true) :
-    After (laterCb st a) a := by
-  unfold laterCb
-  split
-  · rename_i hk; exact after_fire st a _ _ b ha hk hok hl
-  · split
-    · rename_i hs; exact After.of_b (b_processNotify st a ha hs b)
-    · exact After.of_b b
-
-theorem not_of_not_eq_true {b : Bool} (h : ¬(!b) = true) : b = true := by
-  cases b with
-  | true => rfl
-  | false => exact absurd rfl h
-
-theorem eq_false_of_not {b : Bool} (h : (!b) = true) : b = false := by
-  cases b with
-  | true => cases h
-  | false => rfl
-
-/-- The loop over the detached batch of deferred callbacks. -/
-theorem b_laterLoopT (l : List Nat) : ∀ st : St, (∀ a ∈ l, a < st.heap.length ∧ ∀ t, a ∉ listOf st t) →
-    BStep st (laterLoopT st l).1 := by
-  induction l with
-  | nil => intro st _; exact BStep.refl st
-  | cons a rest ih =>
-    intro st hl b
-    unfold laterLoopT
-    split
-    · exact b
-    · rename_i hok
-      split
-      · exact b_fail _ _ b
-      · rename_i hlive
-        have ha := hl a List.mem_cons_self
-        have x := after_laterCb st a b ha.1 (not_of_not_eq_true hok) (not_of_not_eq_true hlive)
-        have f1 := l_laterCb st a b.rep.1 b.wf
-        split
-        · rename_i hbad; exact x.b_of_not_ok (eq_false_of_not hbad)
-        · split
-          · rename_i hdead; exact b_fail _ _ (x.b_of_dead (eq_false_of_not hdead))
-          · rename_i hl2
-            have hl2' := not_of_not_eq_true hl2
-            have hun1 := unlisted_after f1 ha.1 ha.2
-            have x2 := x.step (St.live_lt hl2') (q0_free _ a) (lstep_free_unlisted (laterCb st a) a hun1)
-            have b2 : B ((laterCb st a).free a) := x2.b_of_dead (St.live_free_self _ _ hl2')
-            have f12 : LFacts st ((laterCb st a).free a) :=
-              (LStep.trans (fun _ _ => f1) (lstep_free_unlisted (laterCb st a) a hun1)) b.rep.1 b.wf
-            have hrest : ∀ c ∈ rest, c < ((laterCb st a).free a).heap.length ∧ ∀ t, c ∉ listOf ((laterCb st a).free a) t := by
-              intro c hc
-              have hc' := hl c (List.mem_cons_of_mem _ hc)
-              exact ⟨Nat.lt_of_lt_of_le hc'.1 f12.len, unlisted_after f12 hc'.1 hc'.2⟩
-            exact ih _ hrest b2
-
-theorem b_timerLoopPopT (fuel : Nat) : ∀ (st : St) (now : TV), BStep st (timerLoopPopT fuel st now).1 := by
-  induction fuel with
-  | zero => intro st now; unfold timerLoopPopT; exact b_outOfFuel st
-  | succ n ih =>
-    intro st now b
-    unfold timerLoopPopT
-    split
-    · exact b
-    · rename_i hok
-      split
-      · exact b
-      · rename_i a rest hq
-        split
-        · exact b_fail _ _ b
-        · rename_i hlive
-          split
-          · exact b
-          · have hok' := not_of_not_eq_true hok
-            have hlive' := not_of_not_eq_true hlive
-            have ha : a ∈ listOf st .timer := by show a ∈ st.timers; rw [hq]; exact List.mem_cons_self
-            obtain ⟨fE, hun⟩ := lfacts_erase st a .timer b.wf ha
-            rw [← pop_is_erase st a rest hq] at fE hun
-            have halt : a < st.heap.length := b.wf.alloc ha
-            -- the queue without its head
-            have b0 : B ({ st with timers := rest } : St) :=
-              ⟨b.rep, fE.wf, K.of_q (Q.of_q0 (q0_with_timers st rest)) b.k, Once.none_of_q (Q.of_q0 (q0_with_timers st rest)) b.k b.o⟩
-            have f1' := l_fireUser { st with timers := rest } (st.getW a).slot (EV_FIRE ||| EV_UNBIND) .none b.rep.1 fE.wf
-            have hun1 := unlisted_after f1' (show a < ({ st with timers := rest } : St).heap.length from halt) hun
-            -- the callback
-            have x : After (fireUser { st with timers := rest } (st.getW a).slot (EV_FIRE ||| EV_UNBIND) .none) a := by
-              by_cases hk : (st.getW a).slot ≥ 0
-              · exact after_fire { st with timers := rest } a _ _ b0 halt hk hok' hlive'
-              · rw [fireUser_neg _ _ _ _ b0.k (by omega)]
-                exact After.of_b (b_emit _ _ b0)
-            simp only []
-            split
-            · rename_i hbad; exact x.b_of_not_ok (eq_false_of_not hbad)
-            · split
-              · rename_i hdead; exact b_fail _ _ (x.b_of_dead (eq_false_of_not hdead))
-              · rename_i hl2
-                have hl2' := not_of_not_eq_true hl2
-                have x2 := x.step (St.live_lt hl2') (q0_free _ a) (lstep_free_unlisted _ a hun1)
-                exact ih _ _ (x2.b_of_dead (St.live_free_self _ _ hl2'))
-
-theorem b_timerPhase (fuel : Nat) (st : St) : BStep st (timerPhase fuel st) := by
-  intro b
-  unfold timerPhase
-  split
-  · exact b
-  · rw [if_pos b.rep.1]
-    exact b_timerLoopPopT _ _ _ (b_emit _ _ b)
-
-theorem b_invokeTimers (fuel : Nat) (st : St) : BStep st (invokeTimers fuel st) := by
-  intro b
-  unfold invokeTimers
-  split
-  · exact b
-  · have w := b.wf
-    have hc := b.rep.1
-    -- detaching the later queue (as in `l_invokeTimers`)
-    have f0 : LFacts st { st with laters := [] } := by
-      have hsub : ∀ t, (listOf ({ st with laters := [] } : St) t).Sublist (listOf st t) := by
-        intro t; cases t <;> first | exact List.Sublist.refl _ | exact List.nil_sublist _
-      exact ⟨⟨fun t => (w.nodup t).sublist (hsub t), fun t b hb => w.live t b ((hsub t).subset hb),
-        fun t b hb => w.typ t b ((hsub t).subset hb)⟩, Nat.le_refl _, fun t x hx => Or.inl ((hsub t).subset hx), rfl⟩
-    have hdet : ∀ a ∈ st.laters, a < ({ st with laters := [] } : St).heap.length ∧ ∀ t, a ∉ listOf ({ st with laters := [] } : St) t := by
-      intro a ha
-      have ha' : a ∈ listOf st .later := ha
-      refine ⟨w.alloc ha', ?_⟩
-      intro t h
-      have hsub : (listOf ({ st with laters := [] } : St) t).Sublist (listOf st t) := by
-        cases t <;> first | exact List.Sublist.refl _ | exact List.nil_sublist _
-      have h' := hsub.subset h
-      by_cases ht : t = .later
-      · subst ht; cases h
-      · have h1 := w.typ t a h'
-        have h2 := w.typ .later a ha'
-        exact ht (h1.symm.trans h2)
-    have b0 : B ({ st with laters := [] } : St) :=
-      ⟨b.rep, f0.wf, K.of_q (Q.of_q0 (q0_with_laters st [])) b.k, Once.none_of_q (Q.of_q0 (q0_with_laters st [])) b.k b.o⟩
-    have f1' := l_timerPhase fuel { st with laters := [] } hc f0.wf
-    have hdet1 : ∀ a ∈ st.laters, a < (timerPhase fuel { st with laters := [] }).heap.length ∧
-        ∀ t, a ∉ listOf (timerPhase fuel { st with laters := [] }) t :=
-      fun a ha => ⟨Nat.lt_of_lt_of_le (hdet a ha).1 f1'.len, unlisted_after f1' (hdet a ha).1 (hdet a ha).2⟩
-    exact b_laterLoopT st.laters _ hdet1 (b_timerPhase _ _ b0)
-
-/-! signals -/
-
-theorem b_sigCb (fuel : Nat) (st : St) (a : Nat) (s : Int) (ha : a < st.heap.length) (ht : isOneShot (st.getW a).type = false)
-    (hok : st.isOk = true) : BStep st (sigCb fuel st a s) := by
-  unfold sigCb
-  split
-  · split
-    · rename_i hk; exact b_fire_other st a _ _ ha ht hk hok
-    · split
-      · exact b_onSigchldAny _ _
-      · split
-        · exact BStep.of_q0 (q0_with_stillRunning _ _) (g4_with_stillRunning _ _).lstep
-        · exact BStep.refl _
-  · exact BStep.refl _
-
-theorem b_sigSnapLoopT (fuel : Nat) (s : Int) (l : List Nat) : ∀ st : St, BStep st (sigSnapLoopT fuel st s l).1 := by
-  induction l with
-  | nil => intro st; exact BStep.refl st
-  | cons a rest ih =>
-    intro st
-    unfold sigSnapLoopT
-    split
-    · exact BStep.refl _
-    · rename_i hok
-      split
-      · exact b_fail _ _
-      · split
-        · exact ih _
-        · rename_i hin
-          split
-          · exact b_fail _ _
-          · intro b
-            have hmem : a ∈ listOf st .signal := by
-              have : st.signals.contains a = true := not_of_not_eq_true hin
-              show a ∈ st.signals
-              simpa using this
-            have hty := b.wf.typ .signal a hmem
-            exact ih _ (b_sigCb fuel st a s (b.wf.alloc hmem) (by rw [hty]; rfl) (not_of_not_eq_true hok) b)
-
-theorem b_sigDispatch (fuel : Nat) (st : St) (s : Int) : BStep st (sigDispatch fuel st s) := by
-  intro b
-  unfold sigDispatch
-  rw [if_pos b.rep.2.2.1]
-  split
-  · exact b_fail _ _ b
-  · exact b_sigSnapLoopT _ _ _ _ b
-
-theorem b_dispatchLoop (fuel : Nat) (pending : List Int) (l : List Int) : ∀ st : St, BStep st (dispatchLoop fuel st pending l) := by
-  induction l with
-  | nil => intro st; exact BStep.refl st
-  | cons s rest ih =>
-    intro st
-    unfold dispatchLoop
-    refine BStep.trans ?_ (ih _)
-    split
-    · exact b_sigDispatch _ _ _
-    · exact BStep.refl _
-
-theorem b_dispatchSignals (fuel : Nat) (st : St) : BStep st (dispatchSignals fuel st) := by
-  unfold dispatchSignals
-  exact (BStep.of_q0 (q0_with_pendingSig st []) (g4_with_pendingSig st []).lstep).trans (b_dispatchLoop _ _ _ _)
-
-/-! descriptors -/
-
-theorem b_ioCb (st : St) (s : PollSlot) (hs : s ∈ st.pfd) : BStep st (ioCb st s) := by
-  intro b
-  unfold ioCb
-  split
-  · rename_i a hw
-    obtain ⟨h1, h2⟩ := b.k.p1 s hs a hw
-    split
-    · exact b_fail _ _ b
-    · exact b_invokeWatch _ _ _ _ h1 h2 b
-  · exact b
-
-theorem getD_mem_pfd {l : List PollSlot} {i : Nat} (h : i < l.length) : l.getD i default ∈ l := by
-  rw [List.getD_eq_getElem?_getD, List.getElem?_eq_getElem h]
-  exact List.getElem_mem h
-
-theorem b_ioLoopT (fuel : Nat) : ∀ (st : St) (idx : Nat), BStep st (ioLoopT fuel st idx).1 := by
-  induction fuel with
-  | zero => intro st idx; unfold ioLoopT; exact b_outOfFuel st
-  | succ n ih =>
-    intro st idx
-    unfold ioLoopT
-    split
-    · exact BStep.refl _
-    · split
-      · exact BStep.refl _
-      · rename_i hidx
-        split
-        · exact ih _ _
-        · split
-          · exact ih _ _
-          · exact (b_ioCb _ _ (getD_mem_pfd (by omega))).trans (ih _ _)
-
-theorem b_ioLoop (fuel : Nat) (st : St) (idx : Nat) : BStep st (ioLoop fuel st idx) := b_ioLoopT fuel st idx
-
-/-! the wait -/
-
-theorem q0_foldl_raiseSig (l : List Int) : ∀ st : St, Q0 st (l.foldl raiseSig st) := by
-  induction l with
-  | nil => intro st; exact Q0.refl st
-  | cons s rest ih => intro st; exact (q0_raiseSig st s).trans (ih _)
-
-theorem q0_pollScan (st : St) : Q0 st (pollScan st) :=
-  Q0.of_eq rfl rfl rfl (by unfold pollScan; simp [List.map_map, Function.comp_def])
-
-theorem q0_pollRaise (st : St) : Q0 st (pollRaise st) := by
-  unfold pollRaise
-  exact (q0_with_inpoll st []).trans (q0_foldl_raiseSig _ _)
-
-theorem q0_pollTimeout (st : St) (t : Option Int) : Q0 st (pollTimeout st t) := by
-  unfold pollTimeout
-  split
-  · exact Q0.of_eq rfl rfl rfl rfl
-  · exact Q0.refl _
-
-theorem q0_deliverPending (st : St) : Q0 st (deliverPending st) := by
-  unfold deliverPending
-  split <;> exact Q0.of_eq rfl rfl rfl rfl
-
-theorem q0_ppoll (st : St) (t : Option Int) : Q0 st (ppoll st t).1 := by
-  unfold ppoll
-  split
-  · exact (q0_pollScan st).trans (q0_pollRaise _)
-  · split
-    · exact ((q0_pollScan st).trans (q0_pollRaise _)).trans (q0_emit _ _)
-    · split
-      · exact ((((q0_pollScan st).trans (q0_pollRaise _)).trans (q0_deliverPending _)).trans (q0_with_errno _ _)).trans (q0_emit _ _)
-      · exact (((q0_pollScan st).trans (q0_pollRaise _)).trans (q0_pollTimeout _ _)).trans (q0_emit _ _)
-
-theorem q0_nextTimerMsec (st : St) : Q0 st (nextTimerMsec st).1 := by
-  unfold nextTimerMsec
-  split
-  · exact Q0.refl _
-  · split
-    · exact Q0.refl _
-    · split
-      · exact (q0_emit _ _).trans (q0_fail _ _)
-      · exact q0_emit _ _
-
-theorem b_tickAfterPoll (fuel : Nat) (st : St) (ret : Option Nat) : BStep st (tickAfterPoll fuel st ret) := by
-  unfold tickAfterPoll
-  split
-  · exact b_invokeTimers _ _
-  · split
-    · split
-      · exact (b_invokeTimers _ _).trans (b_ioLoop _ _ _)
-      · exact b_invokeTimers _ _
-    · split
-      · exact (b_invokeTimers _ _).trans (b_dispatchSignals _ _)
-      · exact b_invokeTimers _ _
-
-theorem b_tick (fuel : Nat) (st : St) (nohang : Bool) : BStep st (tick fuel st nohang) := by
-  unfold tick
-  split
-  · exact BStep.refl _
-  · split
-    · exact BStep.of_q0 (q0_nextTimerMsec _) (g4_nextTimerMsec _).lstep
-    · split
-      · exact BStep.of_q0 ((q0_nextTimerMsec _).trans (q0_ppoll _ _)) ((g4_nextTimerMsec _).trans (g4_ppoll _ _)).lstep
-      · exact (BStep.of_q0 ((q0_nextTimerMsec _).trans (q0_ppoll _ _)) ((g4_nextTimerMsec _).trans (g4_ppoll _ _)).lstep).trans
-          (b_tickAfterPoll _ _ _)
-
-theorem q0_ppollRun (st : St) (t : Option Int) : Q0 st (ppollRun st t).1 := by
-  unfold ppollRun
-  split
-  · exact q0_ppoll _ _
-  · split
-    · exact ((q0_ppoll st t).trans (Q0.of_eq rfl rfl rfl rfl : Q0 (ppoll st t).1
-        { (ppoll st t).1 with runPolls := (ppoll st t).1.runPolls + 1, stillRunning := false })).trans (q0_emit _ _)
-    · exact (q0_ppoll st t).trans (Q0.of_eq rfl rfl rfl rfl : Q0 (ppoll st t).1
-        { (ppoll st t).1 with runPolls := (ppoll st t).1.runPolls + 1 })
-
-theorem b_runIter (fuel : Nat) (st : St) : BStep st (runIter fuel st) := by
-  unfold runIter
-  split
-  · exact BStep.refl _
-  · split
-    · exact BStep.of_q0 (q0_nextTimerMsec _) (g4_nextTimerMsec _).lstep
-    · split
-      · exact BStep.of_q0 ((q0_nextTimerMsec _).trans (q0_ppollRun _ _)) ((g4_nextTimerMsec _).trans (g4_ppollRun _ _)).lstep
-      · exact (BStep.of_q0 ((q0_nextTimerMsec _).trans (q0_ppollRun _ _)) ((g4_nextTimerMsec _).trans (g4_ppollRun _ _)).lstep).trans
-          (b_tickAfterPoll _ _ _)
-
-theorem b_runLoop (fuel : Nat) (n : Nat) : ∀ st : St, BStep st (runLoop fuel n st) := by
-  induction n with
-  | zero => intro st; unfold runLoop; exact b_outOfFuel st
-  | succ k ih =>
-    intro st
-    unfold runLoop
-    split
-    · exact BStep.refl _
-    · split
-      · exact BStep.refl _
-      · exact (b_runIter _ _).trans (ih _)
-
-theorem q0_with_inRun (st : St) (b : Bool) : Q0 st { st with inRun := b } := Q0.of_eq rfl rfl rfl rfl
-theorem b_with_inRun (st : St) (b : Bool) : BStep st { st with inRun := b } := BStep.of_q0 (q0_with_inRun st b) (g4_with_inRun st b).lstep
-theorem b_watchCancel (st : St) (a : Nat) : BStep st (watchCancel st a) := BStep.of_q0 (q0_watchCancel st a) (l_watchCancel st a)
-
-theorem b_run (fuel : Nat) (st : St) : BStep st (run fuel st) := by
-  have h0 : BStep st { (watchSignal st 2 0 (-5)).1 with stillRunning := true, inRun := true, runPolls := 0 } :=
-    BStep.of_q0 (((reg_watchSignal st 2 0 (-5) (by decide)).q0 (by decide)).trans (Q0.of_eq rfl rfl rfl rfl))
-      ((lstep_watchSignal st 2 0 (-5)).trans (g4_run_flags _).lstep)
-  unfold run
-  split
-  · exact BStep.refl _
-  · split
-    · exact h0.trans (b_runLoop _ _ _)
-    · intro b
-      exact b_watchCancel _ _ (b_with_inRun _ _ (b_runLoop _ _ _ (h0 b)))
-
-/-! ### destruction, whole operations, histories -/
-
-theorem q0_destroyNotify (st : St) (a : Nat) : Q0 st (destroyNotify st a) := by
-  unfold destroyNotify
-  split
-  · exact q0_notify _ _ _
-  · exact Q0.refl _
-
-theorem q0_destroyList (t : WType) (l : List Nat) : ∀ st : St, Q0 st (destroyList st t l) := by
-  induction l with
-  | nil => intro st; exact Q0.refl st
-  | cons a rest ih =>
-    intro st
-    unfold destroyList
-    split
-    · exact Q0.refl _
-    · split
-      · exact q0_fail _ _
-      · exact (((q0_destroyNotify _ _).trans (q0_cancelHook _ _ _)).trans (q0_free _ a)).trans (ih _)
-
-theorem q0_destroyOf (t : WType) (st : St) : Q0 st (destroyOf t st) := q0_destroyList _ _ _
-
-theorem q0_cancelSigchld (st : St) : Q0 st (cancelSigchld st) := by
-  unfold cancelSigchld
-  split
-  · exact q0_watchCancel _ _
-  · exact Q0.refl _
-
-theorem q0_destroyFinish (st : St) : Q0 st (destroyFinish st) := by
-  unfold destroyFinish
-  split
-  · exact Q0.of_eq rfl rfl rfl rfl
-  · exact Q0.refl _
-
-theorem q0_destroy (st : St) : Q0 st (destroy st) := by
-  unfold destroy
-  split
-  · exact Q0.refl _
-  · exact ((((((q0_cancelSigchld st).trans (q0_destroyOf _ _)).trans (q0_destroyOf _ _)).trans (q0_destroyOf _ _)).trans
-      (q0_destroyOf _ _)).trans (q0_destroyOf _ _)).trans (q0_destroyFinish _)
-
-/-- `K` and `Once` after one operation of the harness. -/
-theorem ko_applyOp (st : St) (op : Op) (b : B st) : K (applyOp st op) ∧ Once none (applyOp st op) := by
-  unfold applyOp
-  have b0 : B ({ st with log := [] } : St) :=
-    BStep.of_q0 (Q0.of_eq rfl rfl rfl rfl : Q0 st { st with log := [] }) (G4.of_eq rfl rfl rfl rfl rfl rfl rfl : G4 st { st with log := [] }).lstep b
-  generalize ({ st with log := [] } : St) = s0 at b0
-  have qk : ∀ s1, Q0 s0 s1 → K s1 ∧ Once none s1 := fun s1 q => ⟨K.of_q (Q.of_q0 q) b0.k, Once.none_of_q (Q.of_q0 q) b0.k b0.o⟩
-  have bk : ∀ s1, B s1 → K s1 ∧ Once none s1 := fun s1 x => ⟨x.k, x.o⟩
-  unfold applyOp'
-  split
-  · exact bk _ b0
-  · split
-    · exact bk _ b0
-    · exact bk _ b0
-    · exact bk _ b0
-    · split
-      · exact bk _ b0
-      · split
-        · exact qk _ (Q0.of_eq rfl rfl rfl rfl)
-        · exact bk _ (BStep.of_q (q_runAct s0 _) (l_runAct s0 _) b0)
-        · exact qk _ (Q0.of_eq rfl rfl rfl rfl)
-        · exact qk _ (Q0.of_eq rfl rfl rfl rfl)
-        · exact qk _ (Q0.of_eq rfl rfl rfl rfl)
-        · exact bk _ (b_tick _ _ _ (BStep.of_q0 (q0_with_stillRunning s0 true) (g4_with_stillRunning s0 true).lstep b0))
-        · exact bk _ (b_tick _ _ _ (BStep.of_q0 (q0_with_stillRunning s0 true) (g4_with_stillRunning s0 true).lstep b0))
-        · exact bk _ (b_run _ _ b0)
-        · exact qk _ (q0_destroy _)
-        · exact bk _ b0
-
-theorem b_applyOp (st : St) (op : Op) (b : B st) (hok : (applyOp st op).status = .ok) : B (applyOp st op) := by
-  obtain ⟨w, hc⟩ := cfg_applyOp_eq st op b.rep.1 b.wf hok
-  obtain ⟨k, o⟩ := ko_applyOp st op b
-  exact ⟨by rw [hc]; exact b.rep, w, k, o⟩
-
-theorem b_build (cfg : Config) (hr : Rep cfg) : B (build cfg) := by
-  obtain ⟨w, hc⟩ := wf_build cfg hr.1
-  have k0 : K (build0 cfg) :=
-    ⟨fun a ha => (by cases ha), List.nodup_nil, fun r hr => (by cases hr), fun s hs => (by cases hs), fun l hl => (by cases hl),
-     fun r hr => (by cases hr)⟩
-  have o0 : Once none (build0 cfg) := fun r hr => by cases hr
-  have q : Q0 (build0 cfg) (build cfg) := by
-    unfold build
-    exact (((reg_watchIo (build0 cfg) (-1) IO_IN 0 (-1) (by decide)).q0 (by decide)).trans
-      ((reg_watchSignal _ SIGWINCH 0 (-2) (by decide)).q0 (by decide))).trans (Q0.of_eq rfl rfl rfl rfl)
-  exact ⟨by rw [hc]; exact hr, w, K.of_q (Q.of_q0 q) k0, Once.none_of_q (Q.of_q0 q) k0 o0⟩
-
-/-- Every state a history reaches under the repaired source, if its status is ok, has the bundle. -/
-theorem b_runOps (cfg : Config) (hr : Rep cfg) (ops : List Op) (hok : (runOps cfg ops).status = .ok) : B (runOps cfg ops) := by
-  unfold runOps at hok ⊢
-  have : ∀ (l : List Op) (st : St), B st → (l.foldl applyOp st).status = .ok → B (l.foldl applyOp st) := by
-    intro l
-    induction l with
-    | nil => intro st b _; exact b
-    | cons o rest ih =>
-      intro st b hfin
-      simp only [List.foldl_cons] at hfin ⊢
-      have hmid : (applyOp st o).status = .ok := by
-        apply Classical.byContradiction
-        intro hne
-        have : ∀ (l : List Op) (s : St), s.status ≠ .ok → (l.foldl applyOp s).status ≠ .ok := by
-          intro l
-          induction l with
-          | nil => intro s hs; exact hs
-          | cons o' r' ih' => intro s hs; exact ih' _ (status_applyOp_of_not_ok s o' hs)
-        exact this rest _ hne hfin
-      exact ih _ (b_applyOp st o b hmid) hfin
-  exact this ops _ (b_build cfg hr) hok
 
 end Tickit.EvLoop
